@@ -518,7 +518,8 @@ def playback(ov: Overlay, module, harness, vals, release=False, tag="x"):
     vdir = ov.tree / "src" / "verif"
     test_name = f"verif_replay_{harness}_{tag}"
     vec = ", ".join("vec![" + ", ".join(str(b) for b in v) + "]" for v in vals)
-    src = (f"\n#[cfg(test)]\n#[test]\nfn {test_name}() {{\n    let concrete_vals: Vec<Vec<u8>> = vec![{vec}];\n"
+    # the engine's start-up tables are filled exactly as the real binary does (main() calls init()) before the harness body runs natively
+    src = (f"\n#[cfg(test)]\n#[test]\nfn {test_name}() {{\n    crate::init();\n    let concrete_vals: Vec<Vec<u8>> = vec![{vec}];\n"
            f"    kani::concrete_playback_run(concrete_vals, {harness});\n}}\n")
     mf = vdir / f"{module}.rs"
     existing = mf.read_text()
